@@ -91,7 +91,9 @@ func checkLog(log []rsec16.VerifWrite, nOut, n int) (string, int) {
 		if len(ws) == 0 {
 			return fmt.Sprintf("no write logged for output shard %d before the call returned", i), workers
 		}
-		sort.Slice(ws, func(a, b int) bool { return ws[a].Start < ws[b].Start || (ws[a].Start == ws[b].Start && ws[a].End < ws[b].End) })
+		sort.Slice(ws, func(a, b int) bool {
+			return ws[a].Start < ws[b].Start || (ws[a].Start == ws[b].Start && ws[a].End < ws[b].End)
+		})
 		pos := 0
 		for _, w := range ws {
 			if w.Start < pos {
